@@ -15,7 +15,13 @@ import (
 	"time"
 )
 
-const VerifRoot = "/verif"
+// VerifRoot is the directory of the verification machinery (/verif; a snapshot of it under `vp run`).
+var VerifRoot = func() string {
+	if d := os.Getenv("VERIF_ROOT"); d != "" {
+		return d
+	}
+	return "/verif"
+}()
 
 // KnownFinding is one entry of /verif/known_findings.json (read-only at run time).
 type KnownFinding struct {
